@@ -89,8 +89,9 @@ MoveOK(ev) ==
     [] op = "extract_u" -> Eq(res, ExtractUSem(Pre(O(ev, 2))))
     [] op = "extract_l" -> Eq(res, ExtractLSem(Pre(O(ev, 2))))
     [] op = "set_ui" -> Eq(res, SetUiSem(Pre(O(ev, 1)), ev.p.v))
+    [] op \in {"randomize", "randomize_custom"} -> SameDims(res, Pre(O(ev, 1)))     \* contents unspecified: frame and padding are judged
 MoveFamily == {"add", "_add", "transpose", "copy", "copy_row", "submatrix", "concat", "stack",
-               "extract_u", "extract_l", "set_ui"}
+               "extract_u", "extract_l", "set_ui", "randomize", "randomize_custom"}
 
 \* row/column operations (C13): operand 1 = the matrix operated on in place
 RowOpsOK(ev) ==
@@ -112,10 +113,13 @@ RowOpsOK(ev) ==
     [] op = "apply_p_right" -> Eq(res, ApplyPRightSem(A, p.P))
     [] op = "apply_p_right_trans" -> Eq(res, ApplyPRightTransSem(A, p.P))
     [] op = "apply_p_right_trans_tri" -> Eq(res, ApplyPRightTransTriSem(A, p.P))
+    [] op = "apply_p_right_capped" -> Eq(res, IF p.sr >= A.m THEN A ELSE Embed(A, p.sr, 0, ApplyPRightSem(Sub(A, p.sr, 0, A.m - p.sr, A.n), p.P)))
+    [] op = "apply_p_right_trans_capped" -> Eq(res, IF p.sr >= A.m THEN A ELSE Embed(A, p.sr, 0, ApplyPRightTransSem(Sub(A, p.sr, 0, A.m - p.sr, A.n), p.P)))
 RowOpsFamily == {"row_swap", "col_swap", "col_swap_in_rows", "row_add", "row_add_offset",
                  "row_clear_offset", "xor_bits", "clear_bits", "read_bits", "read_bits_int",
                  "write_bit", "read_bit", "combine", "apply_p_left", "apply_p_left_trans",
-                 "apply_p_right", "apply_p_right_trans", "apply_p_right_trans_tri"}
+                 "apply_p_right", "apply_p_right_trans", "apply_p_right_trans_tri",
+                 "apply_p_right_capped", "apply_p_right_trans_capped"}
 
 \* observers (C17)
 ObsOK(ev) ==
@@ -223,6 +227,51 @@ ResultOK(ev) ==
 
 Known(ev) == ev.op \in MulFamily \cup MoveFamily \cup RowOpsFamily \cup ObsFamily \cup AlgFamily \cup WordKernelFamily \cup IOFamily
 
+-----------------------------------------------------------------------------
+(* Conformance of the implementation-shaped models (spec/alg) to the code.                     *)
+(* Where a routine's outcome is only constrained relationally by its property (which pivot     *)
+(* rows, which echelon form), the implementation-shaped model still predicts the exact outcome *)
+(* of the code as written: for explicit table parameters the model is evaluated at the code's  *)
+(* constants (word size 64, 7 PLE tables, 6 elimination tables, split constant 8) on the       *)
+(* recorded operand and compared bit for bit with the recorded outcome.  A mismatch is NOT a   *)
+(* violation of the property (the relational predicate above judges that) - it is reported as  *)
+(* "drift_...": the code no longer is the algorithm that the bounded model checks (MC_PLERec,  *)
+(* MC_PLERussian, MC_Echelon) verified, so those results do not transfer to this tree.         *)
+PRu(k) == INSTANCE PLERussian WITH WB <- 64, K <- k, NT <- 7, SB <- 8
+\* the build constants of the traced library (logged by the harness as the first line of every trace)
+Cfg == Tr[CHOOSE i \in 1 .. N : Tr[i].e = "cfg"]
+RECURSIVE Log2Floor(_)
+Log2Floor(v) == IF v <= 1 THEN 0 ELSE 1 + Log2Floor(v \div 2)
+\* the table parameter _mzd_ple_russian chooses for k = 0
+AutoK(m, n) ==
+  LET width == (n + 63) \div 64
+      x == (Cfg.l2 \div 8) \div (width * 7)        \* floor of the real quotient: same floor(log2) for values >= 1
+      k0 == Log2Floor(x)
+      klog == (3 * Log2Floor(Min({m, n})) + 2) \div 4
+      k1 == IF klog < k0 THEN klog ELSE k0
+  IN IF k1 < 2 THEN 2 ELSE IF k1 > 8 THEN 8 ELSE k1
+RussianOf(A, k) == PRu(IF k = 0 THEN AutoK(A.m, A.n) ELSE k)!PleRussian(A)
+RussianAuto(A) == RussianOf(A, 0)
+PRn == INSTANCE PLERec WITH WB <- 64, CUTW <- Cfg.ple_cutoff, BLOCKT <- Cfg.mul_blocksize, PIVRULE <- "first", BaseCase <- RussianAuto
+ECH == INSTANCE Echelon WITH KM <- 6
+ConfSmall(o) == o.m * o.n <= 100 * 100 \/ (Cfg.l3 <= 4096 /\ o.m * o.n <= 350 * 270)
+SamePLE(R, ev) == R.r = ev.ret /\ R.P = ev.p.P /\ R.Q = ev.p.Q /\ Eq(R.A, Post(O(ev, 1)))
+ModelDrift(ev) ==
+  LET op == ev.op  p == ev.p IN
+  IF ev.die = 1 \/ ~(op \in PleFamily \cup {"echelonize_m4ri"}) \/ ~ConfSmall(O(ev, 1)) THEN {}
+  ELSE LET A == Pre(O(ev, 1)) IN
+    CASE op = "_ple_russian" -> LET R == RussianOf(A, p.k) IN IF R.ok /\ SamePLE(R, ev) THEN {} ELSE {"drift_ple_russian"}
+      [] op = "_pluq_russian" -> LET R == RussianOf(A, p.k) IN
+                                 IF R.ok /\ SamePLE([R EXCEPT !.A = ApplyPRightTransTriSem(R.A, R.Q)], ev) THEN {} ELSE {"drift_ple_russian"}
+      [] op = "_ple_naive" -> IF SamePLE(PRn!Base(A), ev) THEN {} ELSE {"drift_ple_naive"}
+      [] op = "_pluq_naive" -> IF SamePLE(PRn!PluqNaive(A), ev) THEN {} ELSE {"drift_pluq_naive"}
+      [] op \in {"ple", "_ple"} -> IF SamePLE(PRn!Ple(A), ev) THEN {} ELSE {"drift_ple_recursive"}
+      [] op \in {"pluq", "_pluq"} -> IF SamePLE(PRn!Pluq(A), ev) THEN {} ELSE {"drift_ple_recursive"}
+      [] op = "echelonize_m4ri" ->
+           IF p.k < 1 THEN {}
+           ELSE LET R == ECH!EchelonM4RI(A, p.full = 1, p.k) IN
+                IF R.rank = ev.ret /\ Eq(R.A, Post(O(ev, 1))) THEN {} ELSE {"drift_echelonize_m4ri"}
+
 \* C11: a checked wrapper called with incompatible dimensions must end in the error handler (die = 1)
 \* with every operand untouched
 ExpectDie(ev) == ev.op = "baddims"
@@ -236,6 +285,7 @@ Checks(ev) ==
        \cup (IF NoStray(ev) THEN {} ELSE {"stray"})
        \cup (IF ev.leak = 0 THEN {} ELSE {"leak"})
        \cup (IF ~Known(ev) THEN {"unknown_op"} ELSE IF ResultOK(ev) THEN {} ELSE {"result"})
+       \cup ModelDrift(ev)
 
 -----------------------------------------------------------------------------
 Init == l = 1 /\ nops = 0 /\ nbad = 0
